@@ -1,4 +1,6 @@
 fn main() {
+  // verification hooks are compiled only with `--cfg gb_dynarec_verif`
+  println!("cargo:rustc-check-cfg=cfg(gb_dynarec_verif)");
   #[cfg(windows)]
   {
     windows::build! {
